@@ -1,6 +1,6 @@
 CONSTANTS Mags = {1, 8} Pages <- PagesMix Rows = {1, 2, 24} Cids = {1, 2, 3} Nats = {0, 1} Flofs = {1, 2} Progs <- ProgsSim
           HdrFaults <- HdrAll RowFaults <- RowAllSim PktFaults <- PktAll TripFaults <- TripAll FlofFaults <- FlofAll MaxFaults = 3 MaxPk = 16
-          FaultFrom = {0, 3, 6, 9, 12}
+          FaultFrom = {0, 3, 6, 9, 12} HdrTxtFaults <- HtxtSim
 SPECIFICATION GSpec
 INVARIANT Dump
 CHECK_DEADLOCK FALSE
